@@ -74,10 +74,16 @@ def derive(ops, impl):
          'ended': False, 'acc': None}
     opened = False
     ustar_need, simple = 1024, True
+    news = 0
     for op, o in zip(ops, impl):
         w = op.split()
         if not w:
             continue
+        if w[0] == 'new':
+            news += 1
+            if news > 1:
+                d['kind'] = 'multi'         # several archives in one case: only the per-call predicates apply
+                break
         if w[0] == 'fmt':
             d['fmt'] = w[1]
         elif w[0] == 'filter':
@@ -96,7 +102,8 @@ def derive(ops, impl):
             opened = o.startswith('open ok')
             d['sink'] = w[0]
             if w[0] != 'openFILE' and d['bil'] < 0:
-                d['bil'] = 1
+                # a device or FIFO gets full last blocks by default, anything else none; an explicit setting stands
+                d['bil'] = 0 if (len(w) > 1 and w[1] in ('fifo', 'null', 'pipe')) else 1
         elif w[0] == 'opener' and w[1] != '0':
             d['kind'] = 'fail'
         elif w[0] in ('open', 'openmem'):
@@ -127,12 +134,44 @@ def derive(ops, impl):
     return d
 
 
+LASTBLK_PAIRS = [(1000, 512), (10240, 3000), (10240, 4096), (10, 4), (20, 8), (512, 100), (512, 200), (7, 2), (7, 5), (513, 512), (10240, 512), (100, 33),
+                 (65537, 10240)]
+
+
+def lastblk_cases(rng, tier, both):
+    """(bytes_per_block, bytes_in_last_block, tail) grid with bilb not dividing bpb: the tail of the archive at
+    every border of every kind of slot, in particular beyond the last whole multiple of bilb (where rounding up
+    overshoots the block); archives shorter than one block and archives with whole blocks in front."""
+    pairs = LASTBLK_PAIRS if tier == 'quick' else LASTBLK_PAIRS + [(rng.randrange(2, 3000), rng.randrange(2, 3000)) for _ in range(50)]
+    for bpb, bil in pairs:
+        whole = bpb // bil * bil
+        tails = sorted(set(r for r in (1, bil - 1, bil, bil + 1, whole - 1, whole, whole + 1, (whole + bpb) // 2, bpb - 1) if 0 < r < bpb))
+        for r in tails:
+            fronts = [0, rng.choice([1, 2])] if both else [rng.choice([0, 0, 1])]
+            for k in fronts:
+                total = k * bpb + r
+                if total > 140000:
+                    continue
+                ops = ['new', 'fmt raw', f'bpb {bpb}', f'bil {bil}', 'script', 'open', plain_header()]
+                for n in chunk(rng, total, rng.choice(['whole', 'rand', 'rand'])):
+                    ops.append(f'fill {n} {rng.randrange(256)}')
+                ops += ['close', 'free']
+                yield Case(f'lastblk-{bpb}-{bil}-{r}-{k}', ops, {'fmt': 'raw', 'bpb': bpb, 'bil': bil, 'kind': 'all', 'filter': '-', 'total': total})
+
+
+# sinks the library provides: (op, what is behind it)
+SINKS = [('openfd', 'reg'), ('openfd', 'pipe'), ('openfd', 'sock'), ('openfd', 'null'), ('openfd', 'fifo'),
+         ('openfile', 'reg'), ('openfile', 'fifo'), ('openfile', 'null'), ('openFILE', 'reg')]
+SWEEP_FORMATS = ['pax', 'paxr', 'gnutar', 'v7tar', 'cpio', 'odc', 'newc', 'bin', 'pwb', 'zip', '7zip', 'xar', 'iso9660',
+                 'arbsd', 'arsvr4', 'mtree', 'mtree-classic', 'warc', 'shar', 'shardump', 'ustar', 'raw']
+
+
 class Cw(Engine):
     name = 'cw'
     keep_prefix = 1
     timeout = 1500
 
-    def __init__(self, nbase=220, monitor=True, mem=True, c11=False):
+    def __init__(self, nbase=150, monitor=True, mem=True, c11=False):
         self.nbase, self.monitor, self.mem, self.c11 = nbase, monitor, mem, c11
 
     # -- generators -------------------------------------------------------
@@ -143,7 +182,7 @@ class Cw(Engine):
             yield c
 
     def gen0(self, rng, tier):
-        n = self.nbase if tier == 'quick' else self.nbase * 5
+        n = self.nbase if tier == 'quick' else self.nbase * 4
         # 1. raw format: the blocking layer alone, full (bpb, bil) grid
         for i in range(n):
             bpb, bil = rng.choice(BPBS + [3, 513, 65537]), rng.choice(BILS + [3, 100, 20000])
@@ -159,28 +198,23 @@ class Cw(Engine):
                 off += k
             ops += self.ending(rng)
             yield Case(f'raw{i}', ops, {'fmt': 'raw', 'bpb': bpb, 'bil': bil, 'kind': kind, 'filter': '-', 'total': total})
-        # 1b. last-block granularity that does not divide the block size, tail beyond the last whole multiple
-        pairs = [(1000, 512), (10240, 3000), (10, 4), (512, 100), (7, 2), (7, 5), (513, 512), (10240, 512), (100, 33), (65537, 10240)]
-        for j, (bpb, bil) in enumerate(pairs if tier == 'quick' else pairs + [(rng.randrange(2, 3000), rng.randrange(2, 3000)) for _ in range(300)]):
-            whole = bpb // bil * bil
-            tails = sorted(set([1, bil - 1 if bil > 1 else 1, bil, min(bil + 1, bpb - 1), max(1, whole - 1), whole if 0 < whole < bpb else 1, min(whole + 1, bpb - 1), bpb - 1,
-                                rng.randrange(1, bpb)]))
-            for r in tails:
-                if not 0 < r < bpb:
-                    continue
-                total = rng.choice([0, 1, 2]) * bpb + r
-                if total > 140000:
-                    total = r
-                ops = ['new', 'fmt raw', f'bpb {bpb}', f'bil {bil}', 'script', 'open', plain_header()]
-                for k in chunk(rng, total, rng.choice(['whole', 'rand', 'rand'])):
-                    ops.append(f'fill {k} {rng.randrange(256)}')
-                ops += ['close', 'free']
-                yield Case(f'lastblk-{bpb}-{bil}-{r}', ops, {'fmt': 'raw', 'bpb': bpb, 'bil': bil, 'kind': 'all', 'filter': '-', 'total': total})
-        # 1c. the library's own sinks (open_fd / open_filename / open_FILE) over a scripted write(2) / fwrite:
-        #     short counts, EINTR, errors, zero returns
-        ns = 90 if tier == 'quick' else 800
+        # 1b. last-block granularity that does not divide the block size: a deterministic grid
+        for c in lastblk_cases(rng, tier, both=True):
+            yield c
+        # 1c. the library's own sinks (open_fd / open_filename / open_FILE) over a scripted write(2) / fwrite, behind
+        #     them a regular file, a FIFO, /dev/null, a pipe, a socket: every (bpb, bilb) setting — the default
+        #     last-block rule depends on what fstat() says and applies only when bilb was not set
+        for op, kind in SINKS:
+            for bpb in (0, 7, 512, 10240):
+                for bil in (None, 0, 1, 3, 512):
+                    total = rng.choice([1, 5, 100, 511, 513, 1300])
+                    ops = ['new', 'fmt raw', f'bpb {bpb}'] + ([f'bil {bil}'] if bil is not None else []) + \
+                          ['sys ' + ' '.join(rng.choice([[], [], ['a3', 'i', 'a100'], ['i', 'a1', 'a1', 'A', 'i']])), f'{op} {kind}' if kind != 'reg' or rng.random() < 0.5 else op,
+                           plain_header(size=total), f'fill {total} {rng.randrange(256)}', 'close', 'free']
+                    yield Case(f'sink-{op}-{kind}-{bpb}-{bil}', ops, {'fmt': 'raw', 'bpb': bpb, 'bil': bil, 'kind': 'sink-grid', 'filter': '-', 'sink': op + ':' + kind})
+        ns = 45 if tier == 'quick' else 400
         for i in range(ns):
-            sink = ['openfd', 'openfile', 'openFILE'][i % 3]
+            sink, knd = rng.choice(SINKS)
             fmt = rng.choice(['raw', 'raw', 'ustar'])
             bpb = rng.choice([0, 7, 512, 10240]); bil = rng.choice([None, None, -1, 0, 1, 512, 3])
             kind = rng.choice(['short', 'short', 'short', 'fail', 'all'])
@@ -191,11 +225,11 @@ class Cw(Engine):
                 if kind == 'fail':
                     k = rng.randrange(len(sc) + 1); sc = sc[:k] + [rng.choice(['e', 'z', 'e'])]
             total = rng.choice([1, 5, 100, 511, 513, 1300, 3000, 10241, 25000])
-            ops = ['new', f'fmt {fmt}', f'bpb {bpb}'] + ([f'bil {bil}'] if bil is not None else []) + ['sys ' + ' '.join(sc), sink, plain_header(size=total)]
+            ops = ['new', f'fmt {fmt}', f'bpb {bpb}'] + ([f'bil {bil}'] if bil is not None else []) + ['sys ' + ' '.join(sc), f'{sink} {knd}', plain_header(size=total)]
             for k in chunk(rng, total, rng.choice(['whole', 'rand', 'rand'])):
                 ops.append(f'fill {k} {rng.randrange(256)}')
             ops += self.ending(rng)
-            yield Case(f'{sink}{i}', ops, {'fmt': fmt, 'bpb': bpb, 'bil': bil, 'kind': 'sink-' + kind, 'filter': '-', 'sink': sink})
+            yield Case(f'{sink}{i}', ops, {'fmt': fmt, 'bpb': bpb, 'bil': bil, 'kind': 'sink-' + kind, 'filter': '-', 'sink': sink + ':' + knd})
         # 2. ustar: header / data / finish_entry / close
         for i in range(n):
             bpb, bil = rng.choice(BPBS), rng.choice(BILS)
@@ -258,6 +292,36 @@ class Cw(Engine):
         # 7. formats / filters the model does not cover: fault sweep, predicate only (monitor)
         if self.monitor:
             kmax = 6 if tier == 'quick' else 20
+            # fail-once at every callback invocation index, under every writable format, names of odd and even
+            # length, block sizes 0 and 1 (every output call / every byte is its own invocation), small, default
+            def small_entries(fmt):
+                if fmt == 'raw':
+                    return [plain_header('a', 0), 'fill 5 1', 'fill 6 2']
+                if fmt in ('arbsd', 'arsvr4'):
+                    return [plain_header('a', 5), 'fill 5 1', plain_header('ab', 6), 'fill 6 2', plain_header('odd_name_17_chars', 1), 'fill 1 3']
+                return [plain_header('a', 5), 'fill 5 1', 'finish', plain_header('ab', 6), 'fill 6 2', plain_header('dir/abc', 0), plain_header('dir/abcd', 3), 'fill 3 3']
+            for fmt in SWEEP_FORMATS:
+                for bpb, ks in ((0, range(16 if tier == 'quick' else 40)), (1, range(0, 16 if tier == 'quick' else 120, 2)),
+                                (7, range(4 if tier == 'quick' else 20)), (512, range(3 if tier == 'quick' else 8)), (10240, range(2))):
+                    # one case = the archives for all failing indices of this (format, block size), one after the other
+                    ops = []
+                    for k in ks:
+                        sc = ['A'] * k + [rng.choice(['e', 'e', 'z'])]
+                        ops += ['new', f'fmt {fmt}', f'bpb {bpb}', 'script ' + ' '.join(sc), 'open'] + small_entries(fmt) + ['close', 'free']
+                    yield Case(f'sweep-{fmt}-{bpb}', ops, {'fmt': fmt, 'bpb': bpb, 'bil': -1, 'kind': 'monitor', 'filter': '-'})
+                # memory sink of every size below the needed one (pass-through blocks: every output call reaches memory_write)
+                sizes = [0, 1, 2, 7, 25, 26, 27, 59, 60, 61, 75, 76, 77, 109, 110, 111, 130, 300, 511, 512, 513, 700, 1023, 1024, 1025, 1500, 2048]
+                picked = rng.sample(sizes, 9) if tier == 'quick' else list(range(0, 2600, 17)) + sizes
+                if fmt in ('raw', 'ustar'):
+                    for sz in picked:
+                        ops = ['new', f'fmt {fmt}', f'bpb {rng.choice([0, 0, 1, 512])}', f'openmem {sz} {sz}'] + small_entries(fmt) + ['close', 'free']
+                        yield Case(f'sweepmem-{fmt}-{sz}', ops, {'fmt': fmt, 'bpb': 0, 'bil': 1, 'kind': 'monitor-mem', 'filter': '-'})
+                else:
+                    for part in range(0, len(picked), 40):
+                        ops = []
+                        for sz in picked[part:part + 40]:
+                            ops += ['new', f'fmt {fmt}', f'bpb {rng.choice([0, 0, 1, 512])}', f'openmem {sz} {sz}'] + small_entries(fmt) + ['close', 'free']
+                        yield Case(f'sweepmem-{fmt}-{part}', ops, {'fmt': fmt, 'bpb': 0, 'bil': 1, 'kind': 'monitor-mem', 'filter': '-'})
             for fmt in FMTS_MONITOR:
                 for k in range(kmax):
                     sc = ['A'] * k + ['e']
@@ -267,10 +331,10 @@ class Cw(Engine):
             for flt in FILTERS_MONITOR:
                 # incompressible data so that the filter hands blocks down all along the entry; the failing
                 # invocation index spread over the whole output
-                idx = sorted(set([0, 1, 2, 3] + [rng.randrange(4, 500) for _ in range(4 if tier == 'quick' else 40)] + [127, 128, 129, 255, 256]))
+                idx = sorted(set([0, 1, 2, 3, 128, 129] + [rng.randrange(4, 230) for _ in range(2 if tier == 'quick' else 40)]))
                 for k in idx:
                     sc = ['A'] * k + ['e']
-                    ops = ['new', 'fmt ustar', f'filter {flt}', 'bpb 512', 'script ' + ' '.join(sc), 'open', plain_header('f', 300000), 'rand 200000 ' + str(rng.randrange(1000)), 'rand 100000 7', 'finish', 'close', 'free']
+                    ops = ['new', 'fmt ustar', f'filter {flt}', 'bpb 512', 'script ' + ' '.join(sc), 'open', plain_header('f', 120000), 'rand 80000 ' + str(rng.randrange(1000)), 'rand 40000 7', 'finish', 'close', 'free']
                     yield Case(f'mon-{flt}-r{k}', ops, {'fmt': 'ustar', 'bpb': 512, 'bil': -1, 'kind': 'monitor', 'filter': flt})
                 # compressible data: (nearly) all output is produced while the filter is being closed
                 for k in range(min(kmax, 5)):
@@ -294,6 +358,8 @@ class Cw(Engine):
         anybad = False
         seen_fatal = False
         for op, o in zip(case.ops, impl):
+            if op == 'new':
+                seen_fatal = False
             if 'VIOLATED' in o:
                 return o
             if o == 'leaks=1':
@@ -323,7 +389,7 @@ class Cw(Engine):
         mt = derive(case.ops, impl)
         statuses = [o.split()[1] for o in impl if re.match(r'(open|header|data|finish|close|free) ', o)]
         failed = any(s in ('fatal', 'failed') for s in statuses)
-        if mt['mem'] is not None and mt['need'] is not None and mt['ended']:
+        if mt['mem'] is not None and mt['need'] is not None and mt['ended'] and mt['kind'] != 'multi':
             # every buffer size from 0 to the needed size: too small is an error, large enough is not
             if mt['mem'] >= mt['need'] and failed:
                 return f'memory sink: a buffer of {mt["mem"]} bytes (needed: {mt["need"]}) was reported exhausted'
@@ -380,36 +446,78 @@ ALL_FORMATS = ['ustar', 'pax', 'paxr', 'gnutar', 'v7tar', 'odc', 'newc', 'bin', 
                'arbsd', 'arsvr4', 'mtree', 'mtree-classic', 'warc', 'shar', 'shardump', 'raw']
 DET_FILTERS = ['-', 'gzip', 'bzip2', 'xz', 'lzma', 'lzip', 'zstd', 'lz4', 'compress', 'b64', 'uu']
 LEVELS = [str(i) for i in range(10)]
-# every option string each writer accepts (value sets enumerated where they are small)
-FORMAT_OPTS = {
-    'zip': [f'zip:compression={c}' for c in ('store', 'deflate', 'bzip2', 'lzma', 'xz', 'zstd')] + [f'zip:compression-level={l}' for l in LEVELS] +
-           [f'zip:encryption={e}' for e in ('zipcrypt', 'traditional', 'aes128', 'aes256')] + ['zip:zip64', 'zip:!zip64', 'zip:experimental', 'zip:fakecrc32',
-            'zip:encryption=aes256,zip:compression=store', 'zip:encryption=aes128,zip:compression=deflate', 'zip:encryption=zipcrypt,zip:compression=store'],
-    '7zip': [f'7zip:compression={c}' for c in ('store', 'copy', 'deflate', 'bzip2', 'lzma1', 'lzma2', 'ppmd')] + [f'7zip:compression-level={l}' for l in ('0', '1', '5', '9')],
-    'xar': [f'xar:checksum={c}' for c in ('none', 'md5', 'sha1', 'sha256', 'sha512')] + [f'xar:toc-checksum={c}' for c in ('none', 'md5', 'sha1', 'sha256')] +
-           [f'xar:compression={c}' for c in ('none', 'gzip', 'bzip2', 'lzma', 'xz')] + [f'xar:compression-level={l}' for l in ('1', '9')],
-    'iso9660': ['iso9660:joliet', 'iso9660:!joliet', 'iso9660:joliet=long', 'iso9660:rockridge', 'iso9660:!rockridge', 'iso9660:rockridge=useful',
-                'iso9660:iso-level=1', 'iso9660:iso-level=2', 'iso9660:iso-level=3', 'iso9660:iso-level=4', 'iso9660:zisofs', 'iso9660:!pad', 'iso9660:pad',
-                'iso9660:allow-vernum', 'iso9660:!allow-vernum', 'iso9660:volume-id=VOL', 'iso9660:publisher=pub', 'iso9660:application-id=app',
-                'iso9660:limit-depth', 'iso9660:!limit-depth', 'iso9660:compression-level=1,iso9660:zisofs'],
-    'mtree': ['mtree:all', 'mtree:!all', 'mtree:use-set', 'mtree:indent', 'mtree:dironly', 'mtree:md5', 'mtree:sha1', 'mtree:sha256', 'mtree:sha384', 'mtree:sha512',
-              'mtree:rmd160', 'mtree:cksum', 'mtree:!time', 'mtree:all,mtree:use-set,mtree:indent'],
-    'pax': ['pax:xattrheader=ALL', 'pax:xattrheader=LIBARCHIVE', 'pax:xattrheader=SCHILY'],
-    'warc': ['warc:omit-warcinfo'],
-}
-FILTER_OPTS = {
-    'gzip': [f'gzip:compression-level={l}' for l in LEVELS] + ['gzip:!timestamp'],
-    'bzip2': [f'bzip2:compression-level={l}' for l in LEVELS],
-    'xz': [f'xz:compression-level={l}' for l in LEVELS],
-    'lzma': [f'lzma:compression-level={l}' for l in ('0', '1', '5', '6', '9')],
-    'lzip': [f'lzip:compression-level={l}' for l in ('0', '1', '5', '6', '9')],
-    'zstd': [f'zstd:compression-level={l}' for l in ('1', '3', '9', '19', '-5')] + ['zstd:long=27', 'zstd:frame-per-file', 'zstd:min-frame-in=1024', 'zstd:max-frame-out=4096'],
-    'lz4': [f'lz4:compression-level={l}' for l in ('1', '2', '3', '9')] + ['lz4:stream-checksum', 'lz4:!stream-checksum', 'lz4:block-checksum', 'lz4:!block-checksum',
-            'lz4:block-size=4', 'lz4:block-size=5', 'lz4:block-size=7', 'lz4:block-dependence', 'lz4:!block-dependence'],
-    'b64': ['b64encode:mode=755', 'b64encode:name=some.name'],
-    'uu': ['uuencode:mode=600', 'uuencode:name=x'],
-    'compress': [],
-}
+# which writer source file serves which format / filter names of the harness
+FORMAT_FILES = {'zip': ['zip'], '7zip': ['7zip'], 'xar': ['xar'], 'iso9660': ['iso9660'], 'mtree': ['mtree', 'mtree-classic'], 'pax': ['pax', 'paxr'],
+                'ustar': ['ustar'], 'v7tar': ['v7tar'], 'gnutar': ['gnutar'], 'cpio_odc': ['odc'], 'cpio_newc': ['newc'], 'cpio_binary': ['bin', 'pwb'],
+                'warc': ['warc'], 'shar': ['shar', 'shardump'], 'ar': ['arbsd', 'arsvr4'], 'raw': ['raw']}
+FILTER_FILES = {'gzip': ['gzip'], 'bzip2': ['bzip2'], 'xz': ['xz', 'lzma', 'lzip'], 'zstd': ['zstd'], 'lz4': ['lz4'], 'compress': ['compress'],
+                'b64encode': ['b64'], 'uuencode': ['uu']}
+# values to try for keys whose values are not string literals in the source
+KEY_VALUES = {'threads': ['1', '2'], 'hdrcharset': ['UTF-8', 'ISO-8859-1', 'BINARY'], 'block-size': ['4', '5', '6', '7'], 'iso-level': ['1', '2', '3', '4'],
+              'mode': ['644', '755'], 'name': ['some.name'], 'boot': ['boot.img'], 'boot-load-seg': ['1984'], 'boot-load-size': ['4'], 'boot-catalog': ['boot.cat'],
+              'long': ['27'], 'creation': ['1700000000']}
+
+
+def scan_options(path):
+    """{key: [values]} a writer's options function accepts: every `strcmp(key, "k")` and the string literals
+    the value is compared with before the next key."""
+    text = re.sub(r'/\*.*?\*/', '', open(path, errors='replace').read(), flags=re.S)
+    keys = [(m.start(), m.group(1)) for m in re.finditer(r'strcmp\(key,\s*"([^"]+)"\)', text)]
+    out = {}
+    for n, (pos, k) in enumerate(keys):
+        end = keys[n + 1][0] if n + 1 < len(keys) else min(len(text), pos + 6000)
+        vals = re.findall(r'str(?:case)?cmp\((?:value|val|v),\s*"([^"]*)"\)', text[pos:end])
+        out.setdefault(k, [])
+        for v in vals:
+            if v.lower() not in [x.lower() for x in out[k]]:
+                out[k].append(v)
+    return out
+
+
+def option_strings(opts):
+    """Every value of every option: literals from the source; levels 0..9; a table for the few free-form keys;
+    bare / negated / =1 / =x for anything else (so that a key added to a writer is exercised without editing this file)."""
+    out = []
+    for k, vals in opts.items():
+        vs = list(vals)
+        if 'level' in k:
+            vs += LEVELS
+        vs += KEY_VALUES.get(k, [])
+        if 'frame' in k:
+            vs += ['1024', '65536']
+        forms = [f'{k}={v}' for v in vs]
+        if not vs or k in ('joliet', 'rockridge', 'Rockridge', 'zisofs', 'pad', 'timestamp', 'zip64', 'omit-warcinfo'):
+            forms += [k, '!' + k]
+        if not vs:
+            forms += [f'{k}=x.y']
+        if k.startswith('boot-'):
+            forms = ['boot=boot.img,' + f for f in forms]
+        out += forms
+    return out
+
+
+def writer_option_tables():
+    import os
+    from lib import core
+    fopts, lopts = {}, {}
+    for stem, names in FORMAT_FILES.items():
+        p = os.path.join(core.REPO, 'libarchive', f'archive_write_set_format_{stem}.c')
+        if os.path.exists(p):
+            o = option_strings(scan_options(p))
+            for nm in names:
+                fopts[nm] = o
+    for stem, names in FILTER_FILES.items():
+        p = os.path.join(core.REPO, 'libarchive', f'archive_write_add_filter_{stem}.c')
+        if os.path.exists(p):
+            o = option_strings(scan_options(p))
+            for nm in names:
+                lopts[nm] = o
+    # combinations the single-option enumeration cannot reach
+    fopts.setdefault('zip', [])
+    fopts['zip'] = fopts['zip'] + ['encryption=aes256,compression=store', 'encryption=aes128,compression=deflate', 'encryption=zipcrypt,compression=store']
+    return fopts, lopts
+
+
 POISONS = [(0x11, 0x22), (0xEE, 0xDD)]
 SHAPES = ['mixed', 'tiny', 'longnames', 'special']
 
@@ -455,6 +563,8 @@ class Det(Cw):
                 ops += [plain_header(long1, 3), 'fill 3 7', plain_header(long2, 0)]
             ops += [plain_header('b.o', 0), plain_header('odd.o', 7), 'fill 7 9']
             return ops
+        if fmt == 'iso9660':
+            return [plain_header('boot.img', 2048), 'fill 2048 9'] + self.entries(rng, 'ustar', shape)
         if shape == 'tiny':
             ops = []
             for n, sz in enumerate([0, 1, 5, 19, 20, 21]):
@@ -494,24 +604,33 @@ class Det(Cw):
             for fmt in ALL_FORMATS:
                 for shape in SHAPES:
                     yield case(f'det-{fmt}-{shape}-{r}', fmt, '-', [], shape)
-            # B. every format x every option string it accepts; shapes alternate so that every option
-            #    meets ordinary, tiny and long-name entries over the seeds (encryption: tiny and mixed always)
-            for fmt, pool in FORMAT_OPTS.items():
+            # B. every format x every value of every option its writer accepts (scanned from the source): one case per
+            #    value; entry shapes rotate with the seed (every shape holds a non-empty regular file; encryption
+            #    always meets tiny and ordinary bodies)
+            fopts, lopts = writer_option_tables()
+            for fmt in ALL_FORMATS:
+                pool = fopts.get(fmt, [])
+                if fmt in ('mtree-classic', 'paxr', 'pwb', 'shardump'):
+                    # second name served by the same writer source: a rotating quarter of its options
+                    off = rng.randrange(4); pool = pool[off::4]
                 for n, o in enumerate(pool):
                     shapes = ['tiny', 'mixed'] if 'encryption' in o else [SHAPES[(n + r + rng.randrange(4)) % 4]]
                     for shape in shapes:
-                        yield case(f'det-{fmt}-{o}-{shape}-{r}', fmt, '-', [o], shape)
-            # C. every filter x every option value, over a rotating container format; plus every filter bare
+                        yield case(f'det-{fmt}-{o}-{shape}-{r}', fmt, '-', o.split(','), shape)
+            # C. every filter x every value of every option, over a rotating container format; plus every filter bare
             for flt in DET_FILTERS[1:]:
-                for n, o in enumerate([None] + FILTER_OPTS.get(flt, [])):
+                for n, o in enumerate([None] + lopts.get(flt, [])):
                     fmt = ['ustar', 'newc', 'raw', 'zip', 'pax'][(n + r) % 5]
                     yield case(f'det-{fmt}-{flt}-{o}-{r}', fmt, flt, [o] if o else [], rng.choice(['mixed', 'tiny']))
             # D. two options at once
             for _ in range(10 if tier == 'quick' else 60):
-                fmt = rng.choice(list(FORMAT_OPTS))
+                fmt = rng.choice([f for f in ALL_FORMATS if fopts.get(f)])
                 flt = rng.choice(DET_FILTERS)
-                opts = rng.sample(FORMAT_OPTS[fmt], min(2, len(FORMAT_OPTS[fmt]))) + ([rng.choice(FILTER_OPTS[flt])] if FILTER_OPTS.get(flt) else [])
-                yield case(f'det-combo-{fmt}-{flt}', fmt, flt, opts, rng.choice(SHAPES))
+                opts = rng.sample(fopts[fmt], min(2, len(fopts[fmt]))) + ([rng.choice(lopts[flt])] if lopts.get(flt) else [])
+                yield case(f'det-combo-{fmt}-{flt}', fmt, flt, [x for o in opts for x in o.split(',')], rng.choice(SHAPES))
+        # F. the last-block grid: padding bytes come from the malloc'ed block buffer unless they are stored
+        for c in lastblk_cases(rng, tier, both=False):
+            yield c
         # E. the modelled layer with a short-writing callback: partial last blocks, buffer reuse
         for i in range(self.nbase if tier == 'quick' else self.nbase * 30):
             bpb, bil = rng.choice([3, 7, 512, 10240]), rng.choice(BILS + [3])
